@@ -448,6 +448,25 @@ func oracleC09(x *Exec, r *StepRec) {
 		}
 		x.stats.inc("probe_ctx_" + verb + "_ok")
 	}
+	if r.Kind == "end" {
+		// a running context whose batch is due in this block gets that batch counted (issued or skipped), unless
+		// the consumer could not pay and it was paused
+		h := post.Height
+		for _, id := range pre.CtxIDs() {
+			pc := pre.Ctx[id]
+			if nh, due := pre.NewH[id]; !due || nh != h || pc.State != types.RUNNING || x.ctxOrigin(id) == "modsvc" {
+				continue
+			}
+			qc, ok := post.Ctx[id]
+			if !ok {
+				continue
+			}
+			if qc.BatchCounter == pc.BatchCounter && qc.State == types.RUNNING {
+				x.viol("C09", "due_batch_not_counted", fmt.Sprintf("height %d: running context %s had a batch due; it was neither counted (batch counter stays %d) nor paused", h, id[:12], pc.BatchCounter), map[string]string{"context_origin": x.ctxOrigin(id)})
+				return
+			}
+		}
+	}
 	for _, id := range pre.CtxIDs() {
 		pc := pre.Ctx[id]
 		qc, ok := post.Ctx[id]
